@@ -85,6 +85,22 @@ func (m *M) Event(e Ev) Obs {
 			}
 		}
 	}
+	// boundary events attached to running sub-processes
+	type srel struct {
+		sc *Scope
+		b  *gen.Node
+	}
+	var srels []srel
+	for _, sc := range m.scopes {
+		if sc.Parent == nil || sc.SubTok == nil || sc.SubTok.dead || sc.interrupted {
+			continue
+		}
+		for _, b := range sc.Parent.G.Nodes {
+			if b.Kind == gen.KBoundary && b.AttachedTo == sc.SubNode.ID && nodeMatches(b, e) {
+				srels = append(srels, srel{sc, b})
+			}
+		}
+	}
 	for _, rl := range rels {
 		for _, t := range rl.toks {
 			if t.dead {
@@ -118,8 +134,54 @@ func (m *M) Event(e Ev) Obs {
 			m.leave(nt, br.b)
 		}
 	}
+	for _, sr := range srels {
+		if sr.sc.interrupted || sr.sc.SubTok == nil {
+			continue
+		}
+		m.obs.Fired = append(m.obs.Fired, sr.b.ID)
+		if sr.b.CancelAct {
+			// interrupting: every inner token is withdrawn, inner requests lose their effect
+			sr.sc.interrupted = true
+			m.cancelScope(sr.sc)
+			t := sr.sc.SubTok
+			sr.sc.SubTok = nil
+			m.leave(t, sr.b)
+		} else {
+			nt := m.newToken(sr.sc.Parent, "", sr.b.ID)
+			nt.Cohort = sr.sc.SubTok.Cohort
+			m.leave(nt, sr.b)
+		}
+	}
 	m.run()
 	return m.finish()
+}
+
+// cancelScope withdraws every token inside a sub-process activation.
+func (m *M) cancelScope(sc *Scope) {
+	for _, t := range m.tokens {
+		if t.dead {
+			continue
+		}
+		for s := t.Scope; s != nil; s = s.Parent {
+			if s == sc {
+				m.kill(t)
+				break
+			}
+		}
+	}
+	for _, r := range m.Pending {
+		for s := r.Tok.Scope; s != nil; s = s.Parent {
+			if s == sc {
+				r.Interrupted = true
+			}
+		}
+	}
+	for id := range sc.armed {
+		sc.armed[id] = nil
+	}
+	for id := range sc.incWait {
+		sc.incWait[id] = nil
+	}
 }
 
 // withdraw removes a losing alternative of an event-based gateway.
